@@ -902,6 +902,9 @@ def expr_key(fn, s):
         return ('this',)
     if k == 'unop' and n['op'] in ('*', '&', '-', '!', '~'):
         return ('u', n['op'], expr_key(fn, n['sub']))
+    if k == 'call' and n.get('op') in ('->', '*') and not n.get('a') and n.get('obj', -1) >= 0:
+        # iterator / smart-pointer dereference: identified by the object it is applied to
+        return ('u', n['op'], expr_key(fn, n['obj']))
     return ('?', s)
 
 
